@@ -30,6 +30,8 @@ def make_scenario(rng):
             k = rng.random()
             if role == 'get' and k < 0.5:
                 ops.append(('get', c, rng.choice(['gq0', 'gq1', 'empty'])))
+            elif role == 'get' and k < 0.62:
+                ops.append(('return', c, rng.choice([0, 7, 150, 9000])))   # the broker returns an (earlier) unroutable message
             elif role == 'confirm' and k < 0.6:
                 ops.append(('cpublish', c, rng.choice(['ack', 'nack']), rng.randint(0, 300)))
             elif role == 'consume' and k < 0.4:
@@ -84,9 +86,13 @@ def run_one(args):
         def worker(ops, tname):
             def fn():
                 for op in ops:
+                  try:
                     ch = chans[op[1]]
                     kind = op[0]
-                    if kind == 'declare':
+                    if kind == 'return':
+                        broker.send_content(ch.channel_id, spec.Basic.Return(reply_code=312, reply_text='NO_ROUTE', exchange='', routing_key='nowhere'),
+                                            spec.Basic.Properties(), b'R' * op[2], reply=False)
+                    elif kind == 'declare':
                         r = ch.queue.declare(op[2])
                         if r.get('queue') != op[2]:
                             out['wrong'].append(('declare', op[2], r))
@@ -126,6 +132,8 @@ def run_one(args):
                         r = ch.basic.publish(body, 'confirm-q')
                         if r is not (op[2] == 'ack'):
                             out['wrong'].append(('cpublish', op[2], r))
+                  except amqpstorm.AMQPMessageError:
+                    out['returned_raised'] = out.get('returned_raised', 0) + 1     # the parked returned message, raised once
             return fn
         ts = [ctx.spawn(worker(ops, 'w%d' % i), 'w%d' % i) for i, ops in enumerate(sc['threads'])]
         for t in ts:
@@ -233,6 +241,7 @@ def build_trace(log):
                 continue
             c = st(cid)
             if reply:
+                c['skip_content'] = False
                 if c['reply_batch'] and c['reply_batch'][0] == batch:
                     c['reply_batch'][1].append(name)
                 else:
@@ -240,6 +249,12 @@ def build_trace(log):
                     c['reply_batch'] = (batch, [name])
             else:
                 flush_reply(c)
+                if name == 'Basic.Return':
+                    c['skip_content'] = True           # its header and body never reach Rpc.on_frame (C03)
+                elif name in ('ContentHeader', 'ContentBody') and c.get('skip_content'):
+                    continue
+                else:
+                    c['skip_content'] = False
                 c['inflight'].append((name, False))
                 c['lines'].append('c05.unsol %s:%d' % (name, c['nun']))
                 c['nun'] += 1
@@ -354,10 +369,10 @@ def check(rep):
         'in trace-replayed runs the four instrumented Rpc methods run without line-level pre-emption inside them (the model treats them as atomic steps); every 4th run pre-empts inside them too and is judged by the monitor only',
         'the broker answers every request (no timeouts, no aborted calls): the premise "when the broker answers promptly"',
         'frames are identified towards the model by name and by the index of the request they answer (the broker echo)',
-        'channels running basic.get have no consumers and no returned messages (name disjointness premise of the theorems)',
+        'channels running basic.get have no consumers (name disjointness premise of the theorems); a message returned on such a channel contributes only its Basic.Return frame - the header and body that follow never reach Rpc.on_frame (C03)',
     ]
     # every 4th run keeps line-level pre-emption inside the Rpc methods too (monitor only, no trace replay)
-    jobs = [(make_scenario(rng), rng.randrange(1 << 30), None, i % 4 != 3) for i in range(80 if not thorough else 2500)]
+    jobs = [(make_scenario(rng), rng.randrange(1 << 30), None, i % 4 != 3) for i in range(200 if not thorough else 2500)]
     results = par.pmap(run_one, jobs)
     lines, expect, owner = [], [], []
     for idx, ((sc, seed, _, atomic), r) in enumerate(zip(jobs, results)):
